@@ -104,6 +104,10 @@ func c06Gen(r *rand.Rand, tier string) any {
 			if p.Exts[e].Sel >= 0 && r.IntN(100) < 50 {
 				ps.LoadsExt = append(ps.LoadsExt, e)
 			}
+			if p.Exts[e].Sel >= 0 && p.Exts[e].Util && r.IntN(100) < 50 {
+				// another module of the same required project, loaded directly
+				ps.LoadsUtl = append(ps.LoadsUtl, e)
+			}
 		}
 		ps.Globals = append(ps.Globals, globalSpec{Name: "G0", Val: genValue(r, literalKinds)})
 		for mi := 0; mi < nm; mi++ {
@@ -189,6 +193,11 @@ func (p *projSpec) loadGraph() (map[string][]string, []string) {
 		for _, e := range pk.LoadsExt {
 			if e < len(p.Exts) {
 				g[n] = append(g[n], extLabel(e))
+			}
+		}
+		for _, e := range pk.LoadsUtl {
+			if e < len(p.Exts) && p.Exts[e].Util {
+				g[n] = append(g[n], extPath(e)+"//:util.dawn")
 			}
 		}
 		for mi := range seen {
